@@ -114,6 +114,27 @@ def main(out):
         idx = np.arange((f + 3) % 5, tq.n_atoms, 5)
         xq[f, idx] += rsp.randint(-1, 2, size=(len(idx), 3)) @ Vq[f]
     tq.xyz = xq.astype(np.float32)
+    # a fourth one: a sheared cell at constant extents (box deformation runs): consecutive frames share a_x, b_y and c_z to the bit and
+    # differ in the tilt components only; the first frame is the rectangular cell of the same extents.  The cells go through the
+    # lengths/angles representation, so candidates are drawn and those whose stored diagonal comes out identical are kept.
+    rsh = np.random.RandomState(11)
+    cand = np.zeros((900, 3, 3))
+    cand[:, 0, 0] = 6.0; cand[:, 1, 1] = 6.5; cand[:, 2, 2] = 7.0
+    cand[1:, 1, 0] = rsh.uniform(-2.9, 2.9, 899); cand[1:, 2, 0] = rsh.uniform(-2.9, 2.9, 899); cand[1:, 2, 1] = rsh.uniform(-3.1, 3.1, 899)
+    probe = md.Trajectory(np.zeros((900, 1, 3), dtype=np.float32), None)
+    probe.unitcell_vectors = cand.astype(np.float32)
+    pv = probe.unitcell_vectors
+    same = [i for i in range(900) if pv[i, 0, 0] == pv[0, 0, 0] and pv[i, 1, 1] == pv[0, 1, 1] and pv[i, 2, 2] == pv[0, 2, 2]]
+    tsh = None
+    if len(same) >= t.n_frames:
+        tsh = md.Trajectory(t.xyz.copy(), t.topology)
+        tsh.unitcell_lengths = probe.unitcell_lengths[same[:t.n_frames]]; tsh.unitcell_angles = probe.unitcell_angles[same[:t.n_frames]]
+        Vs = tsh.unitcell_vectors.astype(np.float64)
+        xs = tsh.xyz.astype(np.float64)
+        for f in range(tsh.n_frames):
+            idx = np.arange((f + 1) % 3, tsh.n_atoms, 3)
+            xs[f, idx] += rsp.randint(-1, 2, size=(len(idx), 3)) @ Vs[f]
+        tsh.xyz = xs.astype(np.float32)
     MIXED = ("distances", "displacements", "angles", "dihedrals", "phi", "chi1", "contacts_closest", "contacts_ca", "wernet_nilsson", "neighbors", "neighborlist")
     import os
     if os.environ.get("HISTORY") == "1":
@@ -121,7 +142,8 @@ def main(out):
     res = {}
     fs = functions()
     jobs = [(name, f, t) for name, f in fs.items()] + [(name + "@mixedcells", fs[name], tp) for name in MIXED] \
-        + [(name + "@constant_ab", fs[name], tq) for name in MIXED]
+        + [(name + "@constant_ab", fs[name], tq) for name in MIXED] + [(name + "@shear", fs[name], tsh) for name in MIXED if tsh is not None]
+    res["@meta:shear_frames_found"] = np.array([len(same)])
     for name, f, t in jobs:
         if f is None:
             continue
